@@ -6,6 +6,8 @@ import (
 	"encoding/json"
 	"fmt"
 	"math/bits"
+	"sync/atomic"
+	"time"
 
 	"github.com/ulikunitz/lz/suffix"
 	"verif/mc/engine"
@@ -57,7 +59,18 @@ func checkSort(t []byte, variant int, family string, st *engine.Stats, col *engi
 	orig := append([]byte(nil), t...)
 	sa := make([]int32, len(t))
 	prefill(sa, variant)
-	suffix.Sort(t, sa)
+	if hangsSeen.Load() >= maxHangs {
+		// every hanging sort leaves a spinning goroutine behind; after a few confirmed hangs the rest of the enumeration is skipped and the run is not exhaustive
+		st.Add("texts_skipped_after_hangs", 1)
+		if st.Extra["texts_skipped_after_hangs"] == 1 {
+			st.CapsHit = append(st.CapsHit, fmt.Sprintf("more than %d suffix.Sort calls did not return; remaining texts of this shard skipped", maxHangs))
+		}
+		return
+	}
+	if !sortGuarded(t, sa) {
+		fail("suffix.Sort|hang", "Sort of the %d-byte text %q (family %s) did not return within %v (it normally takes well under a millisecond): the sort loops forever", len(t), clip(t), family, sortTimeout)
+		return
+	}
 	st.Execs++
 	st.Transitions++
 	if !bytes.Equal(orig, t) {
@@ -111,6 +124,88 @@ func checkSort(t []byte, variant int, family string, st *engine.Stats, col *engi
 			if lcp[i] != wantLCP[i] {
 				fail("suffix.LCP|wrong", "LCP mode %d of %q: lcp[%d]=%d, want %d (sa %v)", mode, t, i, lcp[i], wantLCP[i], sa)
 				return
+			}
+		}
+	}
+}
+
+// sortTimeout bounds one suffix.Sort call on a text of at most a few thousand
+// bytes. Such a call takes 0.5 ms; the limit is five orders of magnitude above
+// that, so only a sort that does not terminate can exceed it.
+const sortTimeout = 60 * time.Second
+
+// after the first confirmed hang later suspects get a shorter (still 10^4 x normal) limit
+const sortTimeoutLater = 10 * time.Second
+const maxHangs = 8
+
+var hangsSeen atomic.Int32
+
+// sortGuarded runs suffix.Sort on private copies and reports whether it
+// returned. A sort that hangs keeps its goroutine spinning until the process
+// exits; panics are handed back to the caller.
+func sortGuarded(t []byte, sa []int32) bool {
+	tt := append([]byte(nil), t...)
+	sa2 := append([]int32(nil), sa...)
+	done := make(chan any, 1)
+	go func() {
+		defer func() { done <- recover() }()
+		suffix.Sort(tt, sa2)
+	}()
+	select {
+	case r := <-done:
+		if r != nil {
+			panic(r)
+		}
+		copy(t, tt)
+		copy(sa, sa2)
+		return true
+	case <-time.After(map[bool]time.Duration{true: sortTimeout, false: sortTimeoutLater}[hangsSeen.Load() == 0]):
+		hangsSeen.Add(1)
+		return false
+	}
+}
+
+// TandemSquares enumerates squares W+W (and cubes) of words built from two
+// periodic units separated by single letters: W = (xz)^i . T1 ... Tk with
+// tokens T in {y, z, yz, (yz)^4, (yz)^5}, for every assignment of the letters
+// a,b,c to x,y,z. Repeats of this shape exhaust the rank-sort budget of
+// DivSufSort while a tandem-repeat group is pending, which is the only way
+// into its partial-copy path.
+func TandemSquares(maxTokens int, cubes bool, f func(family string, t []byte)) {
+	perms := [][3]byte{{'a', 'b', 'c'}, {'a', 'c', 'b'}, {'b', 'a', 'c'}, {'b', 'c', 'a'}, {'c', 'a', 'b'}, {'c', 'b', 'a'}}
+	for _, pm := range perms {
+		x, y, z := pm[0], pm[1], pm[2]
+		yz := []byte{y, z}
+		tokens := [][]byte{{y}, {z}, yz, bytes.Repeat(yz, 4), bytes.Repeat(yz, 5)}
+		for i := 0; i <= 2; i++ {
+			head := bytes.Repeat([]byte{x, z}, i)
+			idx := make([]int, maxTokens)
+			for k := 1; k <= maxTokens; k++ {
+				for j := range idx[:k] {
+					idx[j] = 0
+				}
+				for {
+					w := append([]byte(nil), head...)
+					for _, ti := range idx[:k] {
+						w = append(w, tokens[ti]...)
+					}
+					f("tandem-square", append(append([]byte(nil), w...), w...))
+					if cubes {
+						f("tandem-cube", append(append(append([]byte(nil), w...), w...), w...))
+					}
+					j := k - 1
+					for j >= 0 {
+						idx[j]++
+						if idx[j] < len(tokens) {
+							break
+						}
+						idx[j] = 0
+						j--
+					}
+					if j < 0 {
+						break
+					}
+				}
 			}
 		}
 	}
@@ -257,6 +352,30 @@ func init() {
 							st.Nontrivial++
 							i++
 							st.Add("structured_texts", 1)
+							st.Max("max_text_len", int64(len(t)))
+						})
+					},
+				})
+			}
+			// squares and cubes of two-unit periodic words, cut into shards by the letter assignment and head
+			maxTok, cubes := 5, false
+			if tier == "thorough" {
+				maxTok, cubes = 6, true
+			}
+			for part := 0; part < 18; part++ {
+				part := part
+				shards = append(shards, engine.Shard{
+					Name: fmt.Sprintf("C09/tandem-squares/part%d", part),
+					Run: func(st *engine.Stats, col *engine.Collector) {
+						i := 0
+						TandemSquares(maxTok, cubes, func(fam string, t []byte) {
+							i++
+							if (i/977)%18 != part { // blocks of 977 consecutive texts are dealt round robin to the 18 shards
+								return
+							}
+							checkSort(t, i%4, fam, st, col, "C09")
+							st.Nontrivial++
+							st.Add("tandem_texts", 1)
 							st.Max("max_text_len", int64(len(t)))
 						})
 					},
